@@ -27,6 +27,8 @@ Section AnyCarrierHess.
   Qed.
   Lemma gen_adevice_hess n bnd cb (g : fn A) ucs s p : ADevice_hess (fobj_of g) s p = leaf_hess (Build_leafdev n bnd cb (KA g ucs)) s.
   Proof. reflexivity. Qed.
+  Lemma gen_demand_hess c x : DemandFunction_hess c x = fhess (FDemand c) x.
+  Proof. reflexivity. Qed.
 End AnyCarrierHess.
 
 Local Open Scope R_scope.
